@@ -139,7 +139,11 @@ def apply_recipe(q, cmds):
 def calibrate_all(q, data, previous=None):
     cr = previous
     for sig, samples in data.items():
-        cr = q.calibrate(samples, signature_key=sig, previous_calibration_result=cr)
+        if len(data) == 1 and sig != "serving_default":
+            # a model with a single signature may be calibrated without naming it (documented default), whatever its key
+            cr = q.calibrate(samples, previous_calibration_result=cr)
+        else:
+            cr = q.calibrate(samples, signature_key=sig, previous_calibration_result=cr)
     return cr
 
 
